@@ -36,6 +36,8 @@ inline Plan Gen(uint64_t seed)
    // such a session sending PR_COMMAND_KICK is still "a privileged command code sent without [that] privilege" and must be denied (bans themselves only affect accepts)
    std::string pp; {Rng pr(seed, "partialpriv"); if (pr.oneIn(4)) pp = " pphost=" + I(pr.below((uint32_t) hosts)) + " ppbits=" + I(2 + 2*(int) pr.below(3));}   // bits: 2 = add-bans, 4 = remove-bans, 6 = both
    p.push_back("cfg prop=C06 clients=" + I(clients) + " hosts=" + I(hosts) + " faultfree=" + I(faultFree) + pp);
+   // one run in four: every server-side transport has an output stall limit (as TCP sockets do), and some quiescent points are reached over a slow link
+   Rng sr(seed, "stall"); const bool stallRun = sr.oneIn(4); if (stallRun) p.push_back("cfg stall=" + U(sr.oneIn(3) ? 3000000ULL : 180000000ULL));
    GenState g(clients, hosts);
    for (int c=0; c<clients; c++) if ((c < 2)||(cfg.pct(75))) GenConnect(p, g, cfg, fl, c, faultFree);
    p.push_back("step 2");
@@ -80,12 +82,13 @@ inline Plan Gen(uint64_t seed)
          else p.push_back("reset " + I(c));
          g.up[c] = false;
       }
+      else if ((k < 87)&&(wl.oneIn(5))) p.push_back("ghost");   /* a connection whose session fails to start up */
       else if (k < 87) {const int n = (int) wl.below((uint32_t) clients); if (!g.up[n]) GenConnect(p, g, cfg, fl, n, faultFree);}
       else if ((k < 91)&&(!faultFree)) {if (fl.oneIn(2)) p.push_back("noread " + I(c) + " " + I(fl.below(2))); else p.push_back("stall " + I(c) + " " + I(fl.below(2)));}
       else GenPump(p, g, wl);
       if ((inBatch)&&(wl.oneIn(2))) p.push_back("bflush " + I(c));
       if (wl.pct(55)) GenPump(p, g, wl);
-      if ((++sinceQuiesce >= 8 + (int) wl.below(10))||(wl.oneIn(12))) {for (int i=0; i<clients; i++) if (g.up[i]) p.push_back("bflush " + I(i)); p.push_back("quiesce"); sinceQuiesce = 0;}
+      if ((++sinceQuiesce >= 8 + (int) wl.below(10))||(wl.oneIn(12))) {for (int i=0; i<clients; i++) if (g.up[i]) p.push_back("bflush " + I(i)); p.push_back(((stallRun)&&(sr.oneIn(2))) ? ("slowq " + I((int) sr.below((uint32_t) clients)) + " " + U(sr.oneIn(2) ? 8 : (16 + sr.below(100))) + " " + I(8 + (int) sr.below(40))) : std::string("quiesce")); sinceQuiesce = 0;}
    }
    for (int i=0; i<clients; i++) if (g.up[i]) p.push_back("bflush " + I(i));
    return p;
